@@ -424,6 +424,32 @@ struct Corpus {
 	donors: Vec<Vec<mutate::Node>>,
 }
 
+/// Directed: BEGIN/END lines whose labels differ, one of them long and with a non-ASCII character at every byte offset
+/// up to 48 (an error path that quotes or clips a label must not cut a character in two).
+const LABEL_SWEEP: u64 = 2 * 2 * 3 * 48 * 4;
+fn label_sweep(i: u64, pems: &[String]) -> Option<String> {
+	let side = i % 2;
+	let style = i / 2 % 2;
+	let ch = ['\u{e9}', '\u{20ac}', '\u{1f600}'][(i / 4 % 3) as usize];
+	let k = (i / 12 % 48) as usize;
+	let kind = ["PRIVATE KEY", "CERTIFICATE", "CERTIFICATE REQUEST", "PUBLIC KEY"][(i / 576 % 4) as usize];
+	let begin = format!("-----BEGIN {}-----", kind);
+	let base = pems.iter().find(|p| p.starts_with(&begin))?;
+	let long = if style == 0 { format!("{} {}{}y", kind, "x".repeat(k), ch) } else { format!("{}{} {}", "x".repeat(k), ch, kind) };
+	let mut out = String::new();
+	for line in base.lines() {
+		if line.starts_with("-----BEGIN") && side == 0 {
+			out.push_str(&format!("-----BEGIN {}-----\n", long));
+		} else if line.starts_with("-----END") && side == 1 {
+			out.push_str(&format!("-----END {}-----\n", long));
+		} else {
+			out.push_str(line);
+			out.push('\n');
+		}
+	}
+	Some(out)
+}
+
 fn build_corpus(ctx: &Ctx, env_key: &KeyPair) -> Corpus {
 	let mut der: Vec<(&'static str, Vec<u8>)> = Vec::new();
 	let mut pem: Vec<String> = Vec::new();
@@ -1112,7 +1138,13 @@ pub fn run(ctx: &Ctx, shard: (u64, u64)) {
 						ctx.sample(|| format!("der-mutant of a {} ({} bytes) by {} offered as {}", kind, base.len(), desc, k2));
 					},
 					"pem-mutants" => {
-						let t = mutate_pem(&mut rng, &corpus.pem[(i % corpus.pem.len() as u64) as usize]);
+						let t = match if i < LABEL_SWEEP { label_sweep(i, &corpus.pem) } else { None } {
+							Some(t) => {
+								ctx.count("dist:pem-label-sweep");
+								t
+							},
+							None => mutate_pem(&mut rng, &corpus.pem[(i % corpus.pem.len() as u64) as usize]),
+						};
 						parse_pem_input(ctx, &env, &case, &t);
 						ctx.distinct(fnv64(t.as_bytes()));
 					},
